@@ -25,7 +25,9 @@ PROPERTY = "C11"
 RULE = ("per format (qcow2, vmdk, vhdx, vhd, vdi, hds via their generators; vmtar; hyperv; envelope; vmx key safe; Parallels descriptor "
         "graphs): a valid generated input + one mutation drawn from {header/table field := 0, 1, all-ones, sign bit, old±1, own offset, "
         "file size (1/2/4/8 bytes, little and big endian) at an aligned offset biased to non-zero bytes; truncation at a random point; "
-        "8..64 random bytes overwritten}; deflate bombs; rho- and loop-shaped ParentGUID graphs; tar headers with negative sizes. "
+        "8..64 random bytes overwritten}; Hyper-V additionally directed structural mutations (gen_hyperv.struct_mutations: every key-table entry "
+        "incl. inline / trailing Free entries and the zero terminator: size := 0, 1, < header, to-the-end, past-the-end, 2^31, 2^32-1, type := Free / "
+        "Unknown, Free with size 0 / 1; every object-table entry: type / offset (self, table 0, EOF, 2^63..) / size / allocated; table counts / signatures); deflate bombs; rho- and loop-shaped ParentGUID graphs; tar headers with negative sizes. "
         "Each case: open + reads at start / middle / end / whole (≤ 1 MiB) (+ listing / decoding for non-disk inputs). Expected: every call "
         "returns or raises within the watchdog, and tracemalloc's peak stays below 16 MiB + 64·(real input bytes: Python objects per table entry) + 4·(largest request). "
         "Non-trivial = a mutated (not pristine) input; distinct (family, mutation).")
@@ -79,6 +81,11 @@ def apply_mutation(files: dict, mut):
     if mut[0] == "patch":
         _, fid, off, hx = mut
         out[fid] = out[fid].copy().patch(off, bytes.fromhex(hx))
+    elif mut[0] == "patches":          # directed structural mutation: [[offset, hex], ...] + a label saying which field of what
+        im = out[mut[1]].copy()
+        for off, hx in mut[2]:
+            im = im.patch(off, bytes.fromhex(hx))
+        out[mut[1]] = im
     elif mut[0] == "trunc":
         _, fid, n = mut
         im = out[fid].copy()
@@ -220,6 +227,31 @@ def generate(seed, tier):
         add("hyperv", base=r, mut=["none"])
         for _ in range(12):
             add("hyperv", base=r, mut=gen_mutation(rng, {"a": im}))
+    # directed structural mutations (gen_hyperv.struct_mutations): every entry of every key table -- value entries, inline Free
+    # entries, the trailing Free entry, the zero terminator -- gets size := 0 / 1 / < header / to-the-end / past-the-end / huge and
+    # type := Free / Unknown (also together with size 0 / 1); every object-table entry gets type / offset (self reference, table 0,
+    # end of file, 2^63 ..) / size / allocated edge values, every table header its count / signature. Small files: all of them;
+    # otherwise everything that touches a Free entry or a terminator plus a sample of the rest.
+    nb, cap = (7, 170) if tier == "quick" else (24, 300)
+    for i in range(nb):
+        r = gen_hyperv.gen_recipe(rng, "quick")
+        if i % 2 == 0:                    # make sure inline Free entries and a trailing Free entry are present
+            r = copy.deepcopy(r)
+            for t in r["tables"][:2]:
+                t["end"] = "fill"
+                t["items"].insert(rng.randrange(len(t["items"]) + 1), ["free", rng.choice([21, 22, 64, 300]), rng.randrange(256)])
+        ms = gen_hyperv.struct_mutations(copy.deepcopy(r))
+        groups = [[m for m in ms if "@" in m[0] and ":value:" not in m[0]],       # Free entries, trailing Free entry, zero terminator
+                  [m for m in ms if ":value:" in m[0]],                           # value entries
+                  [m for m in ms if "@" not in m[0]]]                             # table headers, object tables
+        pick = []
+        for grp, share in zip(groups, (0.4, 0.3, 0.3)):
+            rng.shuffle(grp)
+            pick += grp[: int(cap * share)]
+        left = [m for grp in groups for m in grp[int(cap * 0.4):]]
+        pick += left[: cap - len(pick)]
+        for label, patches in pick:
+            add("hyperv", base=r, mut=["patches", "a", patches, label], variant=["struct", label.split(":", 1)[1] if "@" in label else label])
     # object tables that list their successor several times (no cycle): each table must still be loaded once
     for depth in (16, 20, 24, 28):
         r = gen_hyperv.gen_recipe(rng, "quick")
